@@ -100,6 +100,33 @@ theorem load_simple_eq (hinted bc : Bool) (scale : Int) (m : GM) (pts : List Vec
   rw [r0.1, r1.1]
   exact ⟨rfl, hall, r0.2, r1.2⟩
 
+/-- **the phantom points handed to the interpreter** (glyph with instructions): the original positions are
+the UNROUNDED scaled phantom points and the current positions have pp1.x, pp2.x, pp3.y, pp4.y rounded, on
+both sides (copy first, round second), for coordinates away from the i32 boundary. -/
+theorem hint_phantom_eq (pp : List Vec)
+    (h : ∀ q ∈ pp, (-2147483648 ≤ q.x ∧ q.x < 2147483616) ∧ (-2147483648 ≤ q.y ∧ q.y < 2147483616)) :
+    HintLoad.hintPhantom pp = FtLoad.hintPhantom pp := by
+  unfold HintLoad.hintPhantom FtLoad.hintPhantom
+  match pp, h with
+  | [p1, p2, p3, p4], h =>
+    have h1 := h p1 (by simp)
+    have h2 := h p2 (by simp)
+    have h3 := h p3 (by simp)
+    have h4 := h p4 (by simp)
+    simp only [rnd_eq _ h1.1, rnd_eq _ h2.1, rnd_eq _ h3.2, rnd_eq _ h4.2]
+  | [], _ => rfl
+  | [_], _ => rfl
+  | [_, _], _ => rfl
+  | [_, _, _], _ => rfl
+  | _ :: _ :: _ :: _ :: _ :: _, _ => rfl
+
+-- advance 549 at scale 1.0: the interpreter sees pp2 at 549 originally and at 576 currently (not 576 / 576,
+-- which the reverse order would give); vertical phantom points round in y only
+example : HintLoad.hintPhantom [⟨0, 0⟩, ⟨549, 0⟩, ⟨274, 816⟩, ⟨274, -204⟩]
+      = ([⟨0, 0⟩, ⟨549, 0⟩, ⟨274, 816⟩, ⟨274, -204⟩], [⟨0, 0⟩, ⟨576, 0⟩, ⟨274, 832⟩, ⟨274, -192⟩])
+    ∧ FtLoad.hintPhantom [⟨0, 0⟩, ⟨549, 0⟩, ⟨274, 816⟩, ⟨274, -204⟩]
+      = ([⟨0, 0⟩, ⟨549, 0⟩, ⟨274, 816⟩, ⟨274, -204⟩], [⟨0, 0⟩, ⟨576, 0⟩, ⟨274, 832⟩, ⟨274, -192⟩]) := by decide
+
 /-- a component whose transform entries are F2Dot14 values, whose arguments are i16 and whose two vector
 lengths are at most 2^18. -/
 def CompOk (c : Comp) : Prop :=
